@@ -46,6 +46,7 @@ type Extra struct {
 	Pacing            *pacing.InterceptorFactory
 	PacingID          string
 	Interval          time.Duration // period of the interceptor's own timer (0 = none)
+	Log               *LogFactory   // set when the variant turns logging on
 }
 
 // Kind describes one interceptor factory of the library.
@@ -105,9 +106,16 @@ func Kinds() []*Kind {
 			f, err := report.NewSenderInterceptor(opts...)
 			return mk(f, err, &Extra{Interval: ReportInterval})
 		}},
-		{Name: "twcc-sender", Variants: 1, New: func(v int) (interceptor.Interceptor, *Extra, error) {
-			f, err := twcc.NewSenderInterceptor(twcc.SendInterval(ReportInterval))
-			return mk(f, err, &Extra{Interval: ReportInterval})
+		{Name: "twcc-sender", Variants: 2, New: func(v int) (interceptor.Interceptor, *Extra, error) {
+			x := &Extra{Interval: ReportInterval}
+			opts := []twcc.Option{twcc.SendInterval(ReportInterval)}
+			if v == 1 {
+				// logging turned on (every level): what is logged is part of what the interceptor emits
+				x.Log = &LogFactory{}
+				opts = append(opts, twcc.WithLoggerFactory(x.Log))
+			}
+			f, err := twcc.NewSenderInterceptor(opts...)
+			return mk(f, err, x)
 		}},
 		{Name: "twcc-header-extension", Variants: 1, New: func(v int) (interceptor.Interceptor, *Extra, error) {
 			f, err := twcc.NewHeaderExtensionInterceptor()
